@@ -430,32 +430,46 @@ def _source(setup, only=None):
 _COUNTER = [0]
 
 
+_NS = [None]        # namespace of the module the case's classes were created in (class IDENTITY is judged against it)
+
+
+def _class_label(cls):
+    """The class NAME when cls is the class of that name of the case's own module, else a label no model/spec answer has."""
+    ns = _NS[0]
+    if ns is not None and ns.get(cls.__name__) is cls:
+        return cls.__name__
+    return f"<foreign:{cls.__module__}.{cls.__qualname__}>"
+
+
 def _canon_value(v):
+    """Exact Python types (bool/int subclasses, tuple, OrderedDict, None are NOT ints/lists/dicts), class identity, order."""
     import dataclasses
 
-    if isinstance(v, bool):
-        return {"other": f"bool:{v}"}
-    if isinstance(v, int):
+    if type(v) is int:
         return v
     if dataclasses.is_dataclass(v) and not isinstance(v, type):
-        return {"c": type(v).__name__, "f": [[f.name, _canon_value(getattr(v, f.name))] for f in dataclasses.fields(v)]}
-    if isinstance(v, list):
+        fs = []
+        for f in dataclasses.fields(v):
+            try:
+                fs.append([f.name, _canon_value(getattr(v, f.name))])
+            except AttributeError:
+                fs.append([f.name, {"other": "unset"}])
+        return {"c": _class_label(type(v)), "f": fs}
+    if type(v) is list:
         return {"l": [_canon_value(x) for x in v]}
-    if isinstance(v, dict):
-        return {"d": [[str(k), _canon_value(x)] for k, x in v.items()]}
+    if type(v) is dict:
+        return {"d": [[k if type(k) is str else f"<{type(k).__name__}:{k!r}>", _canon_value(x)] for k, x in v.items()]}
     return {"other": f"{type(v).__name__}:{v!r}"[:80]}
 
 
 def _canon_ser(s):
-    if isinstance(s, bool):
-        return {"other": f"bool:{s}"}
-    if isinstance(s, int):
+    if type(s) is int:
         return s
-    if isinstance(s, str):
+    if type(s) is str:
         return {"s": s}
-    if isinstance(s, dict):
-        return {"m": [[str(k), _canon_ser(x)] for k, x in s.items()]}
-    if isinstance(s, (list, tuple)):
+    if type(s) is dict:
+        return {"m": [[k if type(k) is str else f"<{type(k).__name__}:{k!r}>", _canon_ser(x)] for k, x in s.items()]}
+    if type(s) is list:
         return {"l": [_canon_ser(x) for x in s]}
     return {"other": f"{type(s).__name__}:{s!r}"[:80]}
 
@@ -483,6 +497,7 @@ def _observe(ns, modname, setup, names, via_name, src):
     from simple_parsing.helpers.serialization import serializable as S
     from simple_parsing.utils import all_subclasses
 
+    _NS[0] = ns
     classes = [ns[n] for n in names]
     if setup["kind"] == "ser":
         reg = S.SerializableMixin.subclasses
@@ -503,7 +518,7 @@ def _observe(ns, modname, setup, names, via_name, src):
 
     def dflt(f):
         if f.default is not dataclasses.MISSING:
-            return None if f.default is None else ["v", _canon_value(f.default)]
+            return ["v", _canon_value(f.default)]          # a default of None is a default, not "required"
         if f.default_factory is not dataclasses.MISSING:
             return ["v", _canon_value(f.default_factory())]
         return None
@@ -527,7 +542,12 @@ def _observe(ns, modname, setup, names, via_name, src):
                 r = outcome_of(lambda: via.from_dict(json.loads(json.dumps(d)), **kwargs))
             else:
                 r = outcome_of(lambda: S.from_dict(via, json.loads(json.dumps(d)), **kwargs))
-            outs.append([drop, ["ok", _canon_value(r[1])] if r[0] == "ok" else ["raise", r[1] if r[0] == "raise" else r[0]]])
+            if r[0] == "ok":
+                # the statement's "equal to the original" is Python equality: recorded next to the structural form
+                eq = bool(r[1] == obj) if "inst" in src else None
+                outs.append([drop, ["ok", _canon_value(r[1]), eq]])
+            else:
+                outs.append([drop, ["raise", r[1] if r[0] == "raise" else r[0]]])
         probes.append(dict(save=save, ser=_canon_ser(d), outs=outs))
 
     kws = {c["name"]: c["kw"] for c in setup["classes"]}
@@ -542,8 +562,12 @@ def _observe(ns, modname, setup, names, via_name, src):
         assert all((f[0] not in NONINIT) == f[3] for f in fs), (n, fs)
         if n in expect:
             assert sorted(x[0] for x in fs) == sorted(expect[n]), (n, fs, expect[n])
-    dis = [[c.__name__, bool(getattr(c, "decode_into_subclasses", False))] for c in classes]
-    enum = [[c.__name__, [s.__name__ for s in all_subclasses(c)]] for c in classes]
+    dis = []
+    for c in classes:
+        a = getattr(c, "decode_into_subclasses", False)
+        assert type(a) is bool, f"decode_into_subclasses of {c.__name__} is {a!r}"
+        dis.append([c.__name__, a])
+    enum = [[c.__name__, [_class_label(x) for x in all_subclasses(c)]] for c in classes]
     return dict(mod=modname, hier=hier, dis=dis, enum=enum, probes=probes, error=None)
 
 
@@ -675,27 +699,65 @@ class _H:
         return self.min_superset(b, keys, r)
 
 
-def _first_diff(a, b, where="top"):
-    """Where two canonical values first differ: top / field / list-item / dict-item."""
-    if a == b:
-        return None
-    if isinstance(a, dict) and isinstance(b, dict):
-        if "c" in a and "c" in b:
-            if a["c"] != b["c"] or [k for k, _ in a["f"]] != [k for k, _ in b["f"]]:
-                return where
-            for (_, x), (_, y) in zip(a["f"], b["f"]):
-                d = _first_diff(x, y, "field")
-                if d:
-                    return d
-        if "l" in a and "l" in b and len(a["l"]) == len(b["l"]):
-            for x, y in zip(a["l"], b["l"]):
-                if x != y:
-                    return "list-item"
-        if "d" in a and "d" in b and [k for k, _ in a["d"]] == [k for k, _ in b["d"]]:
-            for (_, x), (_, y) in zip(a["d"], b["d"]):
-                if x != y:
-                    return "dict-item"
-    return where
+EVIDENCED_ITEM = ("list-item:untyped", "dict-item:untyped")
+
+
+def _item_kind(h, kind, T, xv, yv, sitem):
+    """One differing item of a List[T] / Dict[str, T] field under save_dc_types=True.  The known defect (the item's type
+    entry is never WRITTEN, so the item is loaded like any untyped dict through T with T's own default) is recognised by its
+    evidence, not by its symptom: (1) the serialized item has no type entry, (2) what came back is what loading the untyped
+    dict through T gives (T's decode_into_subclasses off: exactly a T with the unknown keys dropped; on: the level-by-level
+    demand of a load without dropping).  Anything else gets a signature of its own."""
+    typed = isinstance(sitem, dict) and "m" in sitem and any(k == "_type_" for k, _ in sitem["m"])
+    if typed:
+        return f"{kind}:typed-entry-not-honoured"
+    ok = isinstance(xv, dict) and "c" in xv and isinstance(yv, dict) and "c" in yv and yv["c"] in h.fields
+    if ok:
+        if not h.enabled(T):
+            ints = dict((k, x) for k, x in xv["f"] if isinstance(x, int))
+            ok = (yv["c"] == T and [k for k, _ in yv["f"]] == h.fields[T]
+                  and all(y == ints[k] for k, y in yv["f"] if k in ints and isinstance(y, int)))
+        else:
+            ok = _nondrop(h, T, xv, yv) is None
+    return f"{kind}:untyped" if ok else f"{kind}:untyped-but-not-the-default-load"
+
+
+def _dc_types_kinds(h, v, r, s, where="top"):
+    """All the places where the reloaded tree r differs from the original v (s = the serialized form), by kind."""
+    if v == r:
+        return []
+    if not (isinstance(v, dict) and isinstance(r, dict) and "c" in v and "c" in r):
+        return [where]
+    if v["c"] != r["c"] or [k for k, _ in v["f"]] != [k for k, _ in r["f"]]:
+        return [where]
+    smap = dict((k, x) for k, x in s["m"]) if isinstance(s, dict) and "m" in s else {}
+    out = []
+    for (k, x), (_, y) in zip(v["f"], r["f"]):
+        if x == y:
+            continue
+        t = h.ftype.get(v["c"], {}).get(k, ["?"])
+        sx = smap.get(k)
+        if isinstance(x, dict) and "c" in x:
+            out += _dc_types_kinds(h, x, y, sx, "field")
+        elif isinstance(x, dict) and "l" in x and isinstance(y, dict) and "l" in y and len(x["l"]) == len(y["l"]) \
+                and isinstance(sx, dict) and "l" in sx and len(sx["l"]) == len(x["l"]) and t[0] == "list":
+            out += [_item_kind(h, "list-item", t[1], a, b, si) for a, b, si in zip(x["l"], y["l"], sx["l"]) if a != b]
+        elif isinstance(x, dict) and "d" in x and isinstance(y, dict) and "d" in y \
+                and [kk for kk, _ in x["d"]] == [kk for kk, _ in y["d"]] and isinstance(sx, dict) and "m" in sx \
+                and [kk for kk, _ in sx["m"]] == [kk for kk, _ in x["d"]] and t[0] == "dict":
+            out += [_item_kind(h, "dict-item", t[1], a, b, si)
+                    for (_, a), (_, b), (_, si) in zip(x["d"], y["d"], sx["m"]) if a != b]
+        else:
+            out.append("field-value")
+    return out or [where]
+
+
+def _dc_types_detail(h, v, r, s):
+    kinds = _dc_types_kinds(h, v, r, s)
+    other = sorted(set(k for k in kinds if k not in EVIDENCED_ITEM))
+    if other:
+        return other[0]                       # a cause other than the known one is never hidden behind it
+    return EVIDENCED_ITEM[0] if EVIDENCED_ITEM[0] in kinds else EVIDENCED_ITEM[1]
 
 
 def _nondrop(h, b, v, r, depth=0):
@@ -755,7 +817,9 @@ def _judge_stage(via, src, obs):
                 r = o[1]
                 if p["save"]:
                     if r != v:
-                        return ("dc-types", _first_diff(v, r), f"{tag}: expected exactly {v}, observed {r}")
+                        return ("dc-types", _dc_types_detail(h, v, r, p["ser"]), f"{tag}: expected exactly {v}, observed {r}")
+                    if o[2] is not True:
+                        return ("dc-types", "python-eq", f"{tag}: structurally the original {v}, but loaded == original is {o[2]}")
                     continue
                 if not eff:
                     j = _nondrop(h, via, v, r)
@@ -763,6 +827,8 @@ def _judge_stage(via, src, obs):
                         return (j[0], j[1], f"{tag}: {j[2]}")
                     if h.hid(via, v) and r != v:
                         return ("identified", "value", f"{tag}: every level of {v} is identified; observed {r}")
+                    if r == v and o[2] is not True:
+                        return ("identified", "python-eq", f"{tag}: structurally the original {v}, but loaded == original is {o[2]}")
                     continue
                 if not isinstance(r, dict) or "c" not in r or r["c"] not in h.fields:
                     return ("result-shape", "top", f"{tag}: observed {r}")
